@@ -475,6 +475,20 @@ func (c *Ctx) Bin(op Op, a, b *Term) *Term {
 		if b.IsConst() { // x - k = x + (-k)
 			return c.Bin(OpAdd, a, c.Const(w, -b.val))
 		}
+		// (x + k1) - (x + k2), (x + k) - x, x - (x + k)
+		{
+			ax, ak := a, uint64(0)
+			if a.op == OpAdd && a.args[1].IsConst() {
+				ax, ak = a.args[0], a.args[1].val
+			}
+			bx, bk := b, uint64(0)
+			if b.op == OpAdd && b.args[1].IsConst() {
+				bx, bk = b.args[0], b.args[1].val
+			}
+			if ax == bx {
+				return c.Const(w, ak-bk)
+			}
+		}
 	case OpMul:
 		if a.IsConst() {
 			a, b = b, a
